@@ -36,12 +36,13 @@ var costed = map[string]string{
 // simulation they are served by the simulated clock (verif/simrt/clock.go).
 var clocked = map[string]string{
 	"time.Now": "Now", "time.Since": "Since", "time.Until": "Until", "time.Sleep": "Sleep", "time.After": "After", "time.NewTimer": "NewTimer", "time.AfterFunc": "AfterFunc",
+	"time.NewTicker": "NewTicker", "time.Tick": "Tick",
 }
 
 // unmodelledFuncs are sources of time or blocking the simulator has no model for: a tree that
 // uses one cannot be simulated faithfully and the check says so (exit 2) instead of guessing.
 var unmodelledFuncs = map[string]bool{
-	"time.Tick": true, "time.NewTicker": true, "context.WithTimeout": true, "context.WithDeadline": true, "context.WithTimeoutCause": true, "context.WithDeadlineCause": true,
+	"context.WithTimeout": true, "context.WithDeadline": true, "context.WithTimeoutCause": true, "context.WithDeadlineCause": true,
 	"signal.Notify": true,
 }
 
@@ -640,14 +641,38 @@ func (rw *rewriter) walk(n ast.Node, depth int, opts Options) error {
 					visit(se.X, depth+1)
 					visit(x.Args[0], depth+1)
 					return
-				case typ == "time.Timer" && (method == "Stop" && len(x.Args) == 0 || method == "Reset" && len(x.Args) == 1):
+				case typ == "Cond" && (method == "Wait" || method == "Signal" || method == "Broadcast") && len(x.Args) == 0:
+					rw.site(x.Pos(), "cond")
+					path, ptr := fieldPath(selection)
+					amp := "&"
+					if ptr {
+						amp = ""
+					}
+					rw.insert(se.X.Pos(), fmt.Sprintf("%s.Cond%s(%s", alias, method, amp), depth)
+					rw.replace(se.X.End(), x.Rparen+1, path+")")
+					visit(se.X, depth+1)
+					return
+				case typ == "Map" && method == "Range" && len(x.Args) == 1:
+					sid := rw.site(x.Pos(), "syncmaprange")
+					path, ptr := fieldPath(selection)
+					amp := "&"
+					if ptr {
+						amp = ""
+					}
+					rw.insert(se.X.Pos(), fmt.Sprintf("%s.SyncMapRange(%s", alias, amp), depth)
+					rw.replace(se.X.End(), x.Lparen+1, path+", ")
+					rw.insert(x.Rparen, fmt.Sprintf(", %d", sid), -depth)
+					visit(se.X, depth+1)
+					visit(x.Args[0], depth+1)
+					return
+				case (typ == "time.Timer" || typ == "time.Ticker") && (method == "Stop" && len(x.Args) == 0 || method == "Reset" && len(x.Args) == 1):
 					rw.site(x.Pos(), "clock")
 					path, ptr := fieldPath(selection)
 					amp := "&"
 					if ptr {
 						amp = ""
 					}
-					rw.insert(se.X.Pos(), fmt.Sprintf("%s.Timer%s(%s", alias, method, amp), depth)
+					rw.insert(se.X.Pos(), fmt.Sprintf("%s.%s%s(%s", alias, strings.TrimPrefix(typ, "time."), method, amp), depth)
 					if method == "Stop" {
 						rw.replace(se.X.End(), x.Rparen+1, path+")")
 					} else {
@@ -660,9 +685,7 @@ func (rw *rewriter) walk(n ast.Node, depth int, opts Options) error {
 					sid := rw.site(x.Pos(), "reflectkeys")
 					rw.insert(x.Pos(), alias+".ReflectKeys(", depth)
 					rw.insert(x.End(), fmt.Sprintf(", %d)", sid), -depth)
-				case typ == "reflect.Value" && method == "MapRange",
-					typ == "Map" && method == "Range",
-					typ == "Cond" && method == "Wait":
+				case typ == "reflect.Value" && method == "MapRange":
 					rw.rep.Unmodelled = append(rw.rep.Unmodelled, fmt.Sprintf("%s:%d: %s.%s", rw.f.rel, rw.fset.Position(x.Pos()).Line, typ, method))
 				}
 			}
@@ -839,6 +862,55 @@ func (rw *rewriter) rangeChan(x *ast.RangeStmt, depth int) {
 //
 // into a switch over verifsim.Select, which lets the scheduler decide which ready clause is taken
 // (appendix A).  Channel and value expressions are evaluated once, before the choice.
+// exprText returns the source text of e with the calls into package time that read the clock or
+// arm a timer redirected to the simulated clock (the operands of select clauses are copied as
+// text, not visited).
+func (rw *rewriter) exprText(e ast.Expr) string {
+	type span struct {
+		from, to token.Pos
+		repl     string
+	}
+	var spans []span
+	ast.Inspect(e, func(n ast.Node) bool {
+		call, ok := n.(*ast.CallExpr)
+		if !ok {
+			return true
+		}
+		se, ok := call.Fun.(*ast.SelectorExpr)
+		if !ok {
+			return true
+		}
+		pk, ok := se.X.(*ast.Ident)
+		if !ok {
+			return true
+		}
+		if pn, ok := rw.info.Uses[pk].(*types.PkgName); ok {
+			if repl := clocked[pn.Imported().Path()+"."+se.Sel.Name]; repl != "" {
+				rw.site(call.Pos(), "clock")
+				spans = append(spans, span{se.Pos(), se.End(), alias + "." + repl})
+				if rw.f.keep == nil {
+					rw.f.keep = map[string]bool{}
+				}
+				rw.f.keep[pk.Name+"."+se.Sel.Name] = true
+			}
+			if unmodelledFuncs[pn.Imported().Name()+"."+se.Sel.Name] {
+				rw.rep.Unmodelled = append(rw.rep.Unmodelled, fmt.Sprintf("%s:%d: %s.%s", rw.f.rel, rw.fset.Position(call.Pos()).Line, pn.Imported().Name(), se.Sel.Name))
+			}
+		}
+		return true
+	})
+	sort.Slice(spans, func(i, j int) bool { return spans[i].from < spans[j].from })
+	var sb strings.Builder
+	at := e.Pos()
+	for _, sp := range spans {
+		sb.WriteString(rw.text(at, sp.from))
+		sb.WriteString(sp.repl)
+		at = sp.to
+	}
+	sb.WriteString(rw.text(at, e.End()))
+	return sb.String()
+}
+
 func (rw *rewriter) selectStmt(x *ast.SelectStmt, depth int) error {
 	id := rw.site(x.Pos(), "select")
 	var decls, cases []string
@@ -856,13 +928,13 @@ func (rw *rewriter) selectStmt(x *ast.SelectStmt, depth int) error {
 		header := fmt.Sprintf("case %d:", idx)
 		switch comm := cc.Comm.(type) {
 		case *ast.SendStmt:
-			cases = append(cases, fmt.Sprintf("%s.CaseSend(%s, %s)", alias, rw.text(comm.Chan.Pos(), comm.Chan.End()), rw.text(comm.Value.Pos(), comm.Value.End())))
+			cases = append(cases, fmt.Sprintf("%s.CaseSend(%s, %s)", alias, rw.exprText(comm.Chan), rw.exprText(comm.Value)))
 		case *ast.ExprStmt:
 			u, ok := ast.Unparen(comm.X).(*ast.UnaryExpr)
 			if !ok || u.Op != token.ARROW {
 				return fmt.Errorf("unsupported select clause")
 			}
-			cases = append(cases, fmt.Sprintf("%s.CaseRecv(%s, nil, nil)", alias, rw.text(u.X.Pos(), u.X.End())))
+			cases = append(cases, fmt.Sprintf("%s.CaseRecv(%s, nil, nil)", alias, rw.exprText(u.X)))
 		case *ast.AssignStmt:
 			if len(comm.Rhs) != 1 {
 				return fmt.Errorf("unsupported select clause")
@@ -874,7 +946,7 @@ func (rw *rewriter) selectStmt(x *ast.SelectStmt, depth int) error {
 			c := fmt.Sprintf("c__%d_%d", id, idx)
 			r := fmt.Sprintf("r__%d_%d", id, idx)
 			k := fmt.Sprintf("ok__%d_%d", id, idx)
-			decls = append(decls, fmt.Sprintf("%s := %s; %s := %s.Zero(%s); %s := false; _, _ = %s, %s", c, rw.text(u.X.Pos(), u.X.End()), r, alias, c, k, r, k))
+			decls = append(decls, fmt.Sprintf("%s := %s; %s := %s.Zero(%s); %s := false; _, _ = %s, %s", c, rw.exprText(u.X), r, alias, c, k, r, k))
 			cases = append(cases, fmt.Sprintf("%s.CaseRecv(%s, &%s, &%s)", alias, c, r, k))
 			var lhs, rhs []string
 			for i, l := range comm.Lhs {
